@@ -24,7 +24,10 @@ Checks (one per clause, so one red clause does not hide the others)
   C11/invalid-utf8/functions-agree  ill-formed UTF-8: the functions agree *with each other* (no reference
                                  segmentation is imposed; see below)
   C11/invalid-double-byte/no-exception, .../functions-agree   the same for wide mode (lone lead bytes ...)
-  C11/apply-target-encoding      DEC graphics -> alternate-charset byte with a "0" run; run lengths = length
+  C11/apply-target-encoding      DEC graphics -> alternate-charset byte with a "0" run; run lengths = length; under
+                                 every ordered pair / triple of set_encoding calls (the encoding state is process-global:
+                                 the answer must depend on the LAST encoding only)
+  C11/encoding-switch            byte mode and output codec after every such sequence = those documented for the last
 
 Oracle decisions
   * "agree with the Unicode width tables": the tables are the range tables shipped with wcwidth (what
@@ -721,12 +724,36 @@ def sweep_wide_codecs(K, wt):
 # ---------------------------------------------------------------------------------------------
 # apply_target_encoding
 
-ATE_ENCODINGS = (("utf-8", "utf-8"), ("iso8859-1", "latin-1"), ("ascii", "ascii"), ("euc-jp", "euc-jp"), ("big5", "big5"), ("koi8-r", "koi8-r"))
+# (urwid encoding name, python codec, byte mode documented for it: 'utf8' for UTF-8, 'wide' for the double-byte
+# CJK encodings, 'narrow' for 8-bit ones -- util.get_encoding_mode's documentation, written out here)
+ATE_ENCODINGS = (("utf-8", "utf-8", "utf8"), ("euc-jp", "euc-jp", "wide"), ("gbk", "gbk", "wide"), ("big5", "big5", "wide"),
+                 ("iso8859-1", "latin-1", "narrow"), ("ascii", "ascii", "narrow"), ("koi8-r", "koi8-r", "narrow"))
+ATE_BY_NAME = {e: (c, m) for e, c, m in ATE_ENCODINGS}
 ATE_ALPHA = ("a", "\xe9", "中", "─", "│", "◆", "\xa3", "π", " ")
 
 
-def one_ate(enc, codec, s):
-    """(ok, detail) for apply_target_encoding(s) under the encoding already set.
+def switch_encoding(history, stack=None):
+    """Replay a history of encoding switches (the encoding state is process-global: what an application sees
+    after switching encodings, e.g. started under a UTF-8 locale and then told to use euc-jp). Operations:
+    "<name>" = set_encoding(name); "with:<name>" = a complete `with util.set_temporary_encoding(name): pass`;
+    "within:<name>" (last only) = that context entered and held open on `stack` (a contextlib.ExitStack)."""
+    for op in history:
+        if op.startswith("with:"):
+            with util.set_temporary_encoding(op[5:]):
+                pass
+        elif op.startswith("within:"):
+            stack.enter_context(util.set_temporary_encoding(op[7:]))
+        else:
+            util.set_encoding(op)
+
+
+def one_ate(enc, codec, s, history=None):
+    """(ok, detail) for apply_target_encoding(s) under the encoding already set (`history`: the set_encoding
+    calls that led there, the last one being `enc`; kept in the detail for replay).
+
+    The DEC graphics set is "in use" for every encoding but UTF-8 (a UTF-8 terminal draws the characters
+    themselves) -- decided from the table above, for the LAST encoding set, not from urwid's own state: the
+    state before (any earlier encoding) must not matter.
 
     Oracle correction (triage C11): the reference used to be the codec's errors="replace" form, i.e. exactly
     one "?" for each character the target encoding lacks. The statement fixes only the DEC graphics bytes,
@@ -736,8 +763,8 @@ def one_ate(enc, codec, s):
     its length compares with the column width is counted in the notes, not judged. Everything the statement
     does say -- DEC byte + "0" run, encodable characters = their encoding in None runs, well-formed runs,
     total = encoded length -- is judged as before."""
-    dec = str_util.get_byte_encoding() != "utf8"
-    d = {"encoding": enc, "codec": codec, "text": tx(s), "fn": "apply_target_encoding"}
+    dec = ATE_BY_NAME[enc][1] != "utf8"
+    d = {"encoding": enc, "codec": codec, "text": tx(s), "fn": "apply_target_encoding", "history": list(history or (enc,))}
     segs = None
     if isinstance(s, bytes):
         want_desc = [[s.hex(), None]]
@@ -768,26 +795,81 @@ def one_ate(enc, codec, s):
     return True, d
 
 
-def check_ate(K, maxlen):
-    chk = K["apply-target-encoding"]
-    singles = list(R.DEC_BYTE_OF)
-    for enc, codec in ATE_ENCODINGS:
-        util.set_encoding(enc)
-        texts = [ch for ch in singles]
-        for n in range(0, maxlen + 1):
-            texts.extend("".join(p) for p in itertools.product(ATE_ALPHA, repeat=n))
-        texts.extend([b"", b"abc", "ab─".encode(codec, "replace")])
-        for s in texts:
-            ok, d = one_ate(enc, codec, s)
-            key = (enc, s)
-            if ok:
-                chk.passed(key, 1, {"encoding": enc, "text": repr(s)})
-                if "replacement" in d:  # observation only: the statement does not fix the stand-in's length
-                    n = chk.notes.setdefault("texts with a character the target encoding lacks: stand-in is", {})
-                    k = d["replacement"] if d["replacement"].startswith("one") else "not one '?' per screen column"
-                    n[k] = n.get(k, 0) + 1
-            else:
-                chk.fail(key, d)
+def ate_texts(maxlen, codec):
+    texts = list(R.DEC_BYTE_OF)  # every DEC graphics character alone
+    for n in range(0, maxlen + 1):
+        texts.extend("".join(p) for p in itertools.product(ATE_ALPHA, repeat=n))
+    texts.extend([b"", b"abc", "ab─".encode(codec, "replace")])
+    return texts
+
+
+def ate_histories(enc, depth):
+    """Every history of `depth` set_encoding calls ending in `enc` (earlier calls: every encoding of the table,
+    `enc` itself included), starting from whatever state the process is in."""
+    names = [e for e, _c, _m in ATE_ENCODINGS]
+    return [(*pre, enc) for pre in itertools.product(names, repeat=depth - 1)]
+
+
+def judge_switch(sw, hist, enc):
+    """C11/encoding-switch for one history whose active encoding is `enc` (already switched)."""
+    mode = ATE_BY_NAME[enc][1]
+    got = (util.get_encoding_mode(), util.get_encoding())
+    if got == (mode, enc):
+        sw.passed(hist, 1, {"history": list(hist), "mode": mode})
+    else:
+        sw.fail(hist, {"history": list(hist), "encoding": enc, "got": list(got), "want": [mode, enc], "fn": "set_encoding",
+                       "why": "after switching to encoding e the byte mode / output codec must be the ones documented for e, whatever was set before"})
+
+
+def check_temporary(K, enc):
+    """util.set_temporary_encoding in the history: inside the context the temporary encoding is the active one,
+    after it `enc` is again -- mode, codec and every DEC graphics character (alone and inside "a?b")."""
+    import contextlib
+
+    chk, sw = K["apply-target-encoding"], K["encoding-switch"]
+    names = [e for e, _c, _m in ATE_ENCODINGS]
+    for other in names:
+        # (history, active encoding): `enc` restored after a temporary `other`; `enc` as the temporary one over `other`
+        for hist, active in (((enc, "with:" + other), enc), ((other, "within:" + enc), enc)):
+            with contextlib.ExitStack() as stack:
+                switch_encoding(hist, stack)
+                judge_switch(sw, hist, active)
+                for ch in R.DEC_BYTE_OF:
+                    for s in (ch, "a" + ch + "b"):
+                        ok, d = one_ate(active, ATE_BY_NAME[active][0], s, hist)
+                        if ok:
+                            chk.passed((hist, s), 1)
+                        else:
+                            chk.fail((hist, s), d)
+
+
+def check_ate(K, maxlen, targets=None, depth=2, deep_maxlen=1):
+    """apply_target_encoding under SEQUENCES of encodings: for every ordered pair (previous, encoding) -- `depth`
+    3 adds every ordered triple, with the shorter texts -- the encoding is switched previous -> encoding and every
+    text is judged for `encoding` alone. Also C11/encoding-switch: the byte mode / output codec after the
+    switch are the ones documented for the last encoding. The global state is restored afterwards."""
+    chk, sw = K["apply-target-encoding"], K["encoding-switch"]
+    with Enc():
+        for enc, codec, mode in ATE_ENCODINGS:
+            if targets is not None and enc not in targets:
+                continue
+            for dpt in range(2, depth + 1):
+                texts = ate_texts(maxlen if dpt == 2 else deep_maxlen, codec)
+                for hist in ate_histories(enc, dpt):
+                    switch_encoding(hist)
+                    judge_switch(sw, hist, enc)
+                    for s in texts:
+                        ok, d = one_ate(enc, codec, s, hist)
+                        key = (hist, s)
+                        if ok:
+                            chk.passed(key, 1, {"history": list(hist), "text": repr(s)})
+                            if "replacement" in d:  # observation only: the statement does not fix the stand-in's length
+                                n = chk.notes.setdefault("texts with a character the target encoding lacks: stand-in is", {})
+                                k = d["replacement"] if d["replacement"].startswith("one") else "not one '?' per screen column"
+                                n[k] = n.get(k, 0) + 1
+                        else:
+                            chk.fail(key, d)
+            check_temporary(K, enc)
 
 
 # ---------------------------------------------------------------------------------------------
@@ -810,7 +892,8 @@ CLAUSES = {
     "invalid-utf8/functions-agree": "ill-formed UTF-8: search offsets lie on the move_next_char chain inside [start,end], column <= target and = calc_width, closest; move_prev_char undoes move_next_char; widths additive over the chain; trim total exact",
     "invalid-double-byte/no-exception": "wide mode, texts with lone lead bytes / stray high bytes: nothing raises",
     "invalid-double-byte/functions-agree": "wide mode, texts with lone lead bytes / stray high bytes: the same mutual agreement; offsets stay inside [start,end]",
-    "apply-target-encoding": "apply_target_encoding(str): every DEC graphics character -> its alternate-charset byte inside a '0' run (when the DEC set is in use), other characters -> their encoding in None runs; sum of runs = len(bytes)",
+    "apply-target-encoding": "apply_target_encoding(str) after every sequence of set_encoding calls: every DEC graphics character -> its alternate-charset byte inside a '0' run (for every encoding set last but UTF-8, whatever was set before), other characters -> their encoding in None runs; sum of runs = len(bytes)",
+    "encoding-switch": "after every sequence of set_encoding calls the byte mode (utf8 / wide / narrow) and the output codec are the ones documented for the LAST encoding",
 }
 
 
@@ -914,7 +997,7 @@ def do_task(task):
         elif kind == "rawdbcs":
             run_raw_dbcs(K, task[1], task[2], task[3], task[4])
         elif kind == "ate":
-            check_ate(K, task[1])
+            check_ate(K, task[1], (task[2],), task[3], task[4])
         elif kind == "random":
             run_group(K, GROUPS[task[2]], 0, random_texts(task[1], task[2]), task[3], task[4])
         else:
@@ -928,7 +1011,9 @@ def plan(tier, seed):
     u8 = UTF8_BYTES_QUICK if quick else UTF8_BYTES_THOROUGH
     db = DBCS_BYTES_QUICK if quick else DBCS_BYTES_THOROUGH
     lens = {g[0]: (g[4] if quick else g[5]) for g in GROUPS}
-    tasks = [("tables",), ("codecs",), ("ate", 3 if quick else 4)]
+    tasks = [("tables",), ("codecs",)]
+    # apply_target_encoding: one task per encoding set last; pairs (previous, last) with all texts, triples with short ones
+    tasks += [("ate", 3 if quick else 4, e, 3, 1 if quick else 2) for e, _c, _m in ATE_ENCODINGS]
     tasks += [("scalars", i, 8) for i in range(8)]
     for gi, g in enumerate(GROUPS):
         n = sum(len(g[3]) ** k for k in range(lens[g[0]] + 1))
@@ -965,7 +1050,13 @@ def run(tier="quick", seed=0, procs=None):
         bounds[k] = f"all byte strings of <= {raw_len} bytes over {[hex(b) for b in u8]}" + (" (every position)" if k.endswith("decode-one") else " that are not well-formed UTF-8; ranges on the strict segmentation's boundaries")
     for k in ("invalid-double-byte/no-exception", "invalid-double-byte/functions-agree"):
         bounds[k] = f"all byte strings of <= {raw_len} bytes over {[hex(b) for b in db]} with a byte >= 0x80 outside a lead+trail pair"
-    bounds["apply-target-encoding"] = f"encodings {[e for e, _c in ATE_ENCODINGS]}: every DEC graphics character alone, all strings of <= {ate_len} over {len(ATE_ALPHA)} characters (ASCII, Latin-1, CJK, 5 DEC graphics, space), 3 byte strings"
+    ate_names = [e for e, _c, _m in ATE_ENCODINGS]
+    ate_deep = 1 if quick else 2
+    bounds["apply-target-encoding"] = (f"encodings {ate_names}: every ordered PAIR (previous, last) of set_encoding calls x [every DEC graphics character alone, all strings of <= {ate_len} over "
+                                       f"{len(ATE_ALPHA)} characters (ASCII, Latin-1, CJK, 5 DEC graphics, space), 3 byte strings]; every ordered TRIPLE x [the DEC characters alone, strings of <= {ate_deep}, 3 byte strings]")
+    tmp_bound = "; every ordered pair with util.set_temporary_encoding (inside the context, and after leaving it)"
+    bounds["apply-target-encoding"] += tmp_bound + " x [every DEC graphics character alone and between two letters]"
+    bounds["encoding-switch"] = f"encodings {ate_names}: every ordered pair and every ordered triple of set_encoding calls" + tmp_bound
     K = make_checks(bounds=bounds)
     rb = f"{RANDOM_PER_GROUP} seeded random texts of {RANDOM_LEN[0]}..{RANDOM_LEN[1]} characters per encoding group ({len(GROUPS)} groups), as str and bytes"
     if not quick:
@@ -1010,9 +1101,20 @@ def replay(check_name, case):
             fails = one_wide_char(case["encoding"], case["cp"], untx(case["text"]))
             return {"outcome": "confirmed" if fails else "not-reproduced", "detail": {"failures": fails}}
         if clause == "apply-target-encoding":
-            util.set_encoding(case["encoding"])
-            ok, d = one_ate(case["encoding"], case["codec"], untx(case["text"]))
+            import contextlib
+
+            hist = tuple(case.get("history") or (case["encoding"],))
+            with contextlib.ExitStack() as stack:
+                switch_encoding(hist, stack)
+                ok, d = one_ate(case["encoding"], case["codec"], untx(case["text"]), hist)
             return {"outcome": "not-reproduced" if ok else "confirmed", "detail": d}
+        if clause == "encoding-switch":
+            import contextlib
+
+            with contextlib.ExitStack() as stack:
+                switch_encoding(case["history"], stack)
+                got = [util.get_encoding_mode(), util.get_encoding()]
+            return {"outcome": "not-reproduced" if got == case["want"] else "confirmed", "detail": {"history": case["history"], "got": got, "want": case["want"]}}
         # text-based clauses: re-run the evaluator that produced the case on that one text
         cfg = case["config"]
         t = untx(case["text"])
